@@ -89,6 +89,17 @@ def value_for(col, variant, row):
 
 def build_table(case):
     """-> (fieldnames, rows as list of dicts with '' for omitted cells)"""
+    if case.get('sweep') is not None:
+        # alignment sweep: a first row whose record length grows one character at a time moves the following large
+        # records through every position relative to the 1012-byte block payloads
+        base = 'ABCDEFGHJKLMNPQRSTUVWXYZ0123456789'
+        n = case['sweep']
+        cols = ['MTI', 'DE31', 'DE48', 'DE63', 'DE94']
+        rows = [{'MTI': '1240', 'DE31': '', 'DE48': '', 'DE63': (base * 30)[:n], 'DE94': ''},
+                {'MTI': '1240', 'DE31': (base * 3)[:99], 'DE48': '0001900' + (base * 27)[:900],
+                 'DE63': (base[5:] * 35)[:999], 'DE94': '12345'},
+                {'MTI': '1644', 'DE31': '', 'DE48': '0023003CT6', 'DE63': (base[9:] * 35)[:997 - n % 3], 'DE94': '1'}]
+        return cols, rows
     cols = case['cols']
     rows = []
     for r in range(case['rows']):
@@ -142,8 +153,9 @@ def check_case(case, acc, workdir=None):
         w = csv.DictWriter(buf, fieldnames=cols, lineterminator='\n')
         w.writeheader()
         w.writerows(rows)
-        acc.case((tuple(cols), case['rows'], tuple(case['variant']), case.get('omit'), case['enc'], case['blocked'],
-                  case['entry']), nontrivial=len(cols) > 1, outcome='%s/%s' % (case['entry'], case['enc']))
+        acc.case((tuple(cols), case.get('rows'), tuple(case.get('variant', [])), case.get('omit'), case['enc'],
+                  case['blocked'], case['entry'], case.get('sweep')), nontrivial=len(cols) > 1,
+                 outcome='%s/%s' % (case['entry'], case['enc']))
         try:
             out_text = convert(case, buf.getvalue(), workdir)
         except Exception as ex:
@@ -197,6 +209,10 @@ def enumerate_cases(tier, seed):
                 add(de_cols + pds_cols, rows, v, omit, env)
                 add(de_cols + ['DE48'], rows, v, omit, env)
     add([], 1, ['plain', 0], 0, all_envs)
+    for n in range(1, 1000):
+        for enc, blocked in ((('latin_1', True),) if n % 7 else (('latin_1', True), ('cp500', True), ('cp037', False))):
+            cases.append({'sweep': n, 'enc': enc, 'blocked': blocked, 'entry': 'func' if n % 50 else 'cli',
+                          'seed': seed})
     return cases
 
 
@@ -224,7 +240,9 @@ def describe(tier, seed):
                 'length 1 / maximum, plain decimals 0 / 1-digit / maximum / 10^(w-1), complete ISO stamps from 1969 to '
                 '2068, well-formed DE48 carriers; each crossed with the metacharacters , " "" ; leading and trailing '
                 'space, mixed) ; MTI + every pair of columns; all columns with PDS columns or with DE48 (never both); '
-                'rows 1..3 with per-row omitted cells; x {latin_1, cp500, cp037} x {VBS, 1014} x {function entry '
+                'rows 1..3 with per-row omitted cells; an alignment sweep (a first row growing from 1 to 999 characters in '
+                'front of two rows of 1.0-2.0 kB, so the large records take every position relative to the 1012-byte '
+                'blocks); x {latin_1, cp500, cp037} x {VBS, 1014} x {function entry '
                 'points on StringIO/BytesIO, cli_run on real files}. Oracle: the output CSV read by csv.DictReader has '
                 'the same number of rows in the same order and every supplied non-empty cell is textually equal.',
         'assumptions': ['fixed-width text is supplied at exactly the field width; numbers without leading zeros; '
